@@ -43,6 +43,18 @@ def _cx(e):
     return u(canon(e))
 
 
+def _cls(node, patterns, scope, near=2):
+    """match.classify with a scope, but a recognised-role expression is a
+    VIOLATION only when it is, besides being a pure function of the same
+    operands, a SMALL edit (<= near positions) of an accepted form: a larger
+    distance means a re-expressed computation the rule cannot compare ->
+    'far' (analysis incomplete)."""
+    v = classify(node, patterns, scope=scope)
+    if v[0] == 'near' and v[1] > near:
+        return ('far',) + tuple(v[1:])
+    return v
+
+
 def _short(e, n=160):
     t = e if isinstance(e, str) else u(e)
     return t if len(t) <= n else t[:n - 3] + '...'
@@ -52,6 +64,22 @@ def _strip_calls(e, names=('np.asarray', 'np.array', 'np.asanyarray', 'list', 'i
     """Peel value-preserving wrappers `f(x)` (single positional argument)."""
     while isinstance(e, ast.Call) and call_name(e) in names and len(e.args) == 1 and not e.keywords:
         e = e.args[0]
+    return e
+
+
+def _peel_outer(e):
+    """Remove OUTER conversions that keep the elements (as dictionary keys /
+    array indices) and their order: x.tolist(), list(x), tuple(x),
+    np.asarray(x), np.asanyarray(x), x.copy()."""
+    while isinstance(e, ast.Call) and not e.keywords:
+        if isinstance(e.func, ast.Attribute) and e.func.attr in ('tolist', 'copy') and not e.args and \
+                call_name(e) not in ('np.copy', 'copy.copy'):
+            e = e.func.value
+        elif call_name(e) in ('list', 'tuple', 'np.asarray', 'np.asanyarray') and len(e.args) == 1 and \
+                not isinstance(e.args[0], (ast.Starred, ast.GeneratorExp)):
+            e = e.args[0]
+        else:
+            break
     return e
 
 
@@ -123,21 +151,36 @@ def _temp_on(fi, n, excl):
 
 
 def _xb(fi, expr, excl=None, depth=8):
-    """fi.expand(expr), evaluated on the paths avoiding branch `excl`."""
-    if excl is None:
-        return fi.expand(expr, depth=depth)
+    """fi.expand(expr), evaluated on the paths avoiding branch `excl` (if
+    given).  Names in `fi._c11_atoms` (the names a rule has located by role
+    and spells its accepted forms with) are left alone; a list that is
+    accumulated by one append loop is replaced by the comprehension it
+    equals (_accum_value)."""
+    atoms = getattr(fi, '_c11_atoms', ())
 
     def ex(e, d):
         if isinstance(e, ast.Name):
-            if d > 0 and isinstance(e.ctx, ast.Load):
+            if d > 0 and isinstance(e.ctx, ast.Load) and e.id not in atoms:
                 v = _temp_on(fi, e, excl)
                 if v is not None:
                     return ex(v, d - 1)
+                v = _accum_value(fi, e, lambda z: ex(z, d - 1))
+                if v is not None:
+                    return v
             return ast.copy_location(ast.Name(id=e.id, ctx=e.ctx), e)
         if not isinstance(e, ast.AST):
             return e
         if isinstance(e, (ast.expr_context, ast.operator, ast.unaryop, ast.boolop, ast.cmpop)):
             return e
+        if isinstance(e, ast.Call) and getattr(e, '_from_np_array', False) and isinstance(e.func, ast.Attribute) \
+                and isinstance(e.func.value, ast.Name):
+            # `name.copy()` that the front end spelled from np.array(name): once the name is
+            # expanded to a non-name expression, spell it np.array(<expr>) again (as fi.expand does)
+            inner = ex(e.func.value, d)
+            if not isinstance(inner, ast.Name):
+                return ast.copy_location(ast.Call(
+                    func=ast.Attribute(value=ast.Name(id='np', ctx=ast.Load()), attr='array', ctx=ast.Load()),
+                    args=[inner], keywords=[]), e)
         new = type(e)()
         for f in e._fields:
             val = getattr(e, f, None)
@@ -147,7 +190,7 @@ def _xb(fi, expr, excl=None, depth=8):
                 setattr(new, f, ex(val, d))
             else:
                 setattr(new, f, val)
-        for a in ('lineno', 'col_offset', 'end_lineno', 'end_col_offset'):
+        for a in ('lineno', 'col_offset', 'end_lineno', 'end_col_offset', '_from_np_array', '_canon_origin'):
             if hasattr(e, a):
                 setattr(new, a, getattr(e, a))
         return new
@@ -189,7 +232,24 @@ def _guard_atoms(fi, stmt):
                 if isinstance(c, Cmp):
                     out.append((_cx(ast.Compare(left=c.lhs, ops=[c.op()], comparators=[c.rhs])), True))
                 else:
-                    out.append((_cx(c[1]), c[2]))
+                    # a named condition (`flag = self.trim` ... `if flag:`) / bool(x): the condition itself
+                    e = c[1]
+                    try:
+                        e = fi.expand(e)
+                    except Exception:
+                        pass
+                    e = _strip_calls(e, ('bool',))
+                    cj2 = conjuncts(e, c[2]) if isinstance(e, (ast.BoolOp, ast.UnaryOp, ast.Compare)) else None
+                    if isinstance(e, (ast.BoolOp, ast.UnaryOp, ast.Compare)) and cj2 is None:
+                        out.append((_cx(c[1]), c[2]))       # a disjunction: keep the named condition as one atom
+                    elif cj2 is not None:
+                        for x in cj2:
+                            if isinstance(x, Cmp):
+                                out.append((_cx(ast.Compare(left=x.lhs, ops=[x.op()], comparators=[x.rhs])), True))
+                            else:
+                                out.append((_cx(x[1]), x[2]))
+                    else:
+                        out.append((_cx(e), c[2]))
     return out
 
 
@@ -419,6 +479,133 @@ def _attr_stores(fn, text):
     return out
 
 
+def _assign_pairs(s):
+    """(target, value, index) of every simple target of an assignment: value
+    is the expression stored there, or None and index = position in an
+    unpacked non-display right-hand side."""
+    for t in s.targets:
+        if isinstance(t, (ast.Tuple, ast.List)):
+            if isinstance(s.value, (ast.Tuple, ast.List)) and len(s.value.elts) == len(t.elts):
+                for te, ve in zip(t.elts, s.value.elts):
+                    yield te, ve, None
+            else:
+                for i, te in enumerate(t.elts):
+                    yield te, None, i
+        else:
+            yield t, s.value, None
+
+
+def _component_sinks(fi, fn, s, call):
+    """Where the components of the tuple returned by `call` (bound by the
+    assignment `s`: `a, b = call`, `R = call` followed by `R[k]`, or
+    `x = call[k]`) are stored, following plain copies: list of
+    (target, statement, indices, exclusive) - indices = the components that
+    may arrive in the target, exclusive = nothing else may."""
+    direct = None               # `x = call[k]`: s binds component k itself
+    if isinstance(s.value, ast.Subscript) and s.value.value is call:
+        k = const_value(s.value.slice)
+        if type(k) is int and k >= 0:
+            direct = k
+    out = []
+    for x in walk_local(fn):
+        if not isinstance(x, ast.Assign):
+            continue
+        for t, ve, i in _assign_pairs(x):
+            if x is s:
+                if ve is None and s.value is call:
+                    out.append((t, x, {i}, True))
+                elif direct is not None and ve is s.value:
+                    out.append((t, x, {direct}, True))
+                continue
+            if not (isinstance(ve, ast.Name) or (isinstance(ve, ast.Subscript) and isinstance(ve.value, ast.Name))):
+                continue
+            try:
+                os_ = _value_origins(fi, x, ve, i)
+            except Exception:
+                continue
+            idxs, excl = set(), bool(os_)
+            for site, idx, v, _ in os_:
+                if site is s and idx is not None and s.value is call:
+                    idxs.add(idx)
+                elif site is s and direct is not None and v is s.value:
+                    idxs.add(direct)
+                else:
+                    excl = False
+            if idxs:
+                out.append((t, x, idxs, excl))
+    return out
+
+
+def _accum_value(fi, n, ex):
+    """`L = []` followed by ONE loop `for T in IT: ...; L.append(E)` that is
+    the only thing ever done to L before this use: the value of L is
+    `[E for T in IT]` (E with the temporaries of the loop body expanded by
+    `ex`).  None when any of the conditions that make this exact fails."""
+    from ..normal import is_pure
+    if not isinstance(n, ast.Name) or not isinstance(n.ctx, ast.Load):
+        return None
+    L = n.id
+    try:
+        defs = fi.defs_of_use(n)
+    except Exception:
+        return None
+    if len(defs) != 1:
+        return None
+    site = next(iter(defs))
+    if not isinstance(site, ast.Assign) or len(assigns_to(fi.fn, L)) != 1:
+        return None
+    v0 = fi.def_value(site, L)
+    if not ((isinstance(v0, ast.List) and not v0.elts) or
+            (isinstance(v0, ast.Call) and call_name(v0) == 'list' and not v0.args and not v0.keywords)):
+        return None
+    muts = fi._mutated_in_place(L)
+    if len(muts) != 1:
+        return None
+    app = muts[0]
+    c = app.value if isinstance(app, ast.Expr) else None
+    if not (isinstance(c, ast.Call) and isinstance(c.func, ast.Attribute) and c.func.attr == 'append'
+            and isinstance(c.func.value, ast.Name) and c.func.value.id == L and len(c.args) == 1 and not c.keywords
+            and not isinstance(c.args[0], ast.Starred)):
+        return None
+    par = fi.mod.parent
+    lp = par.get(app)
+    if not isinstance(lp, ast.For) or lp.orelse or not any(b is app for b in lp.body):
+        return None
+    if par.get(lp) is not par.get(site):
+        return None             # (executed equally often: same block)
+    if any(isinstance(x, (ast.Break, ast.Continue, ast.Return, ast.Yield, ast.YieldFrom, ast.Try, ast.While)) for x in ast.walk(lp)):
+        return None
+    if sum(1 for x in ast.walk(lp) if isinstance(x, ast.Name) and x.id == L) != 1:
+        return None
+    use = fi.stmt(n)
+    if fi._within(use, lp) or use is lp or not fi.cfg.dominates(site, lp) or not fi.cfg.dominates(lp, use):
+        return None
+    from ..core import target_names
+    tn = set(target_names(lp.target))
+    inner = set()               # names (re)bound inside the loop body
+    for x in ast.walk(lp):
+        if isinstance(x, ast.Name) and isinstance(x.ctx, (ast.Store, ast.Del)):
+            inner.add(x.id)
+    if any(isinstance(x, ast.Name) and isinstance(x.ctx, ast.Store) and x.id in tn for b in lp.body for x in ast.walk(b)):
+        return None
+    elt, it = ex(c.args[0]), ex(lp.iter)
+    if not is_pure(elt) or not is_pure(it):
+        return None
+    for e, bound in ((elt, tn), (it, set())):
+        for m in walk_expr(e):
+            if not (isinstance(m, ast.Name) and isinstance(m.ctx, ast.Load)) or m.id in bound:
+                continue
+            if m.id in inner or m.id == L:
+                return None     # a per-iteration value the expansion could not see through
+            if m.id in fi.rd.locals and fi.rd.defs_at(lp, m.id) != fi.rd.defs_at(use, m.id):
+                return None
+            for ms in fi._mutated_in_place(m.id):
+                if fi.cfg.reachable(site, ms) and fi.cfg.reachable(ms, use):
+                    return None
+    comp = ast.ListComp(elt=elt, generators=[ast.comprehension(target=lp.target, iter=it, ifs=[], is_async=0)])
+    return ast.copy_location(comp, site.value)
+
+
 def _atoms_at(fi, stmts):
     """Union of the guard atoms of several statements (None if undecidable)."""
     out = set()
@@ -472,18 +659,34 @@ def trim_rules(ck, mod, fn):
         return
     c = cc[0]
     conn, direc = arg_or_kw(c, 2, 'connection'), arg_or_kw(c, 1, 'directed')
-    ok = conn is not None and const_value(conn) == 'strong' and (direc is None or const_value(direc) is True)
-    ck.check(ok, 'C11.D1.strong', mod, c, F, u(c),
-             'strongly connected components of the directed graph',
-             'connected_components must be called with directed=True, connection="strong": the default '
-             '"weak" keeps states that can be entered but never left (or vice versa)')
+    conn = fi.expand(conn) if conn is not None else None        # (a named constant)
+    direc = fi.expand(direc) if direc is not None else None
+    if any(isinstance(a, ast.Starred) for a in c.args) or any(k.arg is None for k in c.keywords) or \
+            any(a is not None and not isinstance(a, ast.Constant) for a in (conn, direc)):
+        ck.missing('C11.D1.strong', 'constant connection= / directed= arguments of %s' % _short(c, 100))
+    else:
+        # (scipy compares connection case-insensitively; directed is used for its truth value)
+        ok = conn is not None and isinstance(conn.value, str) and conn.value.lower() == 'strong' and \
+            (direc is None or (isinstance(direc.value, (bool, int)) and bool(direc.value)))
+        ck.check(ok, 'C11.D1.strong', mod, c, F, u(c),
+                 'strongly connected components of the directed graph',
+                 'connected_components must be called with directed=True, connection="strong": the default '
+                 '"weak" keeps states that can be entered but never left (or vice versa)')
+    # the names given to the two components of the result (n_components, labels), by def-use:
+    # `n, l = cc(..)`, `r = cc(..); n, l = r[0], r[1]`, `l = cc(..)[1]` ...
     cst = fi.stmt(c)
-    ok = isinstance(cst, ast.Assign) and cst.value is c and isinstance(cst.targets[0], ast.Tuple) and \
-        len(cst.targets[0].elts) == 2 and all(isinstance(e, ast.Name) for e in cst.targets[0].elts)
-    if not ok:
+    names = {}
+    if isinstance(cst, ast.Assign) and len(cst.targets) == 1:
+        for t, x, idxs, excl in _component_sinks(fi, fn, cst, c):
+            if isinstance(t, ast.Name) and excl and len(idxs) == 1 and len(assigns_to(fn, t.id)) == 1:
+                names.setdefault(next(iter(idxs)), []).append(t.id)
+    if 1 not in names or any(k not in (0, 1) for k in names):
         ck.missing('C11.D1.strong', '`n_components, labels = connected_components(...)`')
         return
-    nsub, labels = (e.id for e in cst.targets[0].elts)
+    labels = names[1][0]
+    # (a discarded component count: no name; forms that need it then cannot match)
+    nsub = names[0][0] if 0 in names else '_n_components_unnamed_'
+    fi._c11_atoms = {labels, nsub}
 
     # ---- D2: the graph is a thresholded COPY of the counts
     # every definition of `counts` is the parameter or its densification
@@ -508,7 +711,7 @@ def trim_rules(ck, mod, fn):
         if len(gd) != 1 or not isinstance(gd[0], ast.Assign) or fi.def_value(gd[0], G) is None:
             ck.missing('C11.D2.threshold-copy', 'single definition of the graph %s' % G)
         else:
-            v = classify(fi.def_value(gd[0], G), ['np.array(%s, copy=True)' % counts, '%s.copy()' % counts,
+            v = _cls(fi.def_value(gd[0], G), ['np.array(%s, copy=True)' % counts, '%s.copy()' % counts,
                                                   'np.array(%s, dtype=_D)' % counts, 'np.array(%s, dtype=_D, copy=True)' % counts,
                                                   '%s.astype(_D)' % counts], scope={counts})
             ck.decide(v, 'C11.D2.threshold-copy', mod, gd[0], F, u(gd[0]),
@@ -520,8 +723,8 @@ def trim_rules(ck, mod, fn):
             ck.missing('C11.D2.threshold', 'exactly one store into the graph %s before the component search (found %d)' % (G, len(before)))
         else:
             ts, tt = before[0]
-            m = fi.expand(tt.slice)
-            v = classify(m, cmask + ['%s < %s' % (G, thr)], scope={counts, thr, G})
+            m = _xb(fi, tt.slice)
+            v = _cls(m, cmask + ['%s < %s' % (G, thr)], scope={counts, thr, G})
             if v[0] == 'match' and const_value(ts.value) != 0:
                 v = ('near', 1, '%s[%s < %s] = 0' % (G, counts, thr)) if isinstance(ts.value, ast.Constant) else ('far', 0, None)
             ck.decide(v, 'C11.D2.threshold', mod, ts, F, u(ts),
@@ -530,7 +733,7 @@ def trim_rules(ck, mod, fn):
             ck.check(dom(ts, cst), 'C11.D2.threshold', mod, ts, F, 'threshold before components',
                      'thresholding precedes the component search', 'thresholding must happen on every path before connected_components')
     else:
-        g = fi.expand(graph) if graph is not None else None
+        g = _xb(fi, graph) if graph is not None else None
         forms = ['np.where(%s < %s, 0, %s)' % (counts, thr, counts), 'np.where(%s <= %s, %s, 0)' % (thr, counts, counts),
                  '%s * (%s <= %s)' % (counts, thr, counts), '(%s <= %s) * %s' % (thr, counts, counts), '%s <= %s' % (thr, counts)]
         if g is not None and classify(g, forms)[0] == 'match':
@@ -642,6 +845,9 @@ def trim_rules(ck, mod, fn):
         rng += [pre + t + post for t in ('len(%s)' % M, '%s.shape[0]' % M, 'len(_K)', '_K.shape[0]', '_K.size')]
     ren_forms = ['zip(_K, %s)' % r for r in rng] + ['((_O, _T) for _T, _O in enumerate(_K))', '[(_O, _T) for _T, _O in enumerate(_K)]']
     inp_forms = ['zip(_K, _K)', '((_S, _S) for _S in _K)', '[(_S, _S) for _S in _K]']
+    # recognised spellings of the SWAPPED pairs (new id, original id): positively the wrong orientation
+    swapped_forms = ['zip(%s, _K)' % r for r in rng] + ['enumerate(_K)', '((_T, _O) for _T, _O in enumerate(_K))',
+                                                        '[(_T, _O) for _T, _O in enumerate(_K)]']
     for b, forms, okmsg, badmsg in (
             ('ren', ren_forms, 'mapping pairs are (original id, new contiguous id)',
              'TrimMapping consumes (original, trimmed) pairs: the renumbering mapping must be zip(keep_states, range(n_kept)) in that order'),
@@ -653,7 +859,12 @@ def trim_rules(ck, mod, fn):
             continue
         x = maps[b][0]
         arg = _strip_calls(_xb(fi, x.args[0], EXCL[b]), ('list', 'tuple'))
-        v = classify(arg, forms, scope=scope_all)
+        if isinstance(arg, ast.Call) and call_name(arg) == 'zip' and not arg.keywords:
+            # zip(K.tolist(), ...) pairs the same ids
+            arg = ast.copy_location(ast.Call(func=arg.func, args=[_peel_outer(z) for z in arg.args], keywords=[]), arg)
+        v = _cls(arg, forms, scope=scope_all)
+        if v[0] != 'match' and b == 'ren' and classify(arg, swapped_forms)[0] == 'match':
+            v = ('near', 1, 'zip(keep_states, range(n_kept))')
         ck.decide(v, 'C11.D3.mapping', mod, x, F, '%s  [%s]' % (u(fi.stmt(x)), 'renumber' if b == 'ren' else 'in place'), okmsg, badmsg)
         if v[0] == 'match':
             Kexp[b] = v[1]['_K']
@@ -661,8 +872,15 @@ def trim_rules(ck, mod, fn):
     if not KX:
         return
     if len(set(KX.values())) != 1:
-        ck.bad('C11.D3.mapping', mod, maps['inp'][0], F, 'kept states of the two variants',
-               'the renumbering and the in-place variant describe different state sets: %s vs %s' % (_short(KX['ren'], 80), _short(KX['inp'], 80)))
+        # a violation when both are recognised selections `where(labels == B)[0]` of DIFFERENT components
+        kforms = ['np.where(%s == _B)[0]' % labels, 'np.where(_B == %s)[0]' % labels, 'np.nonzero(%s == _B)[0]' % labels]
+        vb = [classify(Kexp[b], kforms) for b in ('ren', 'inp')]
+        if all(x[0] == 'match' for x in vb):
+            ck.bad('C11.D3.mapping', mod, maps['inp'][0], F, 'kept states of the two variants',
+                   'the renumbering and the in-place variant describe different state sets: %s vs %s' % (_short(KX['ren'], 80), _short(KX['inp'], 80)))
+        else:
+            ck.missing('C11.D3.mapping', 'the keep sets of the two variants are spelled differently: %s vs %s' % (
+                _short(KX['ren'], 80), _short(KX['inp'], 80)))
         return
     kx = next(iter(KX.values()))
     K = next(iter(Kexp.values()))
@@ -684,7 +902,12 @@ def keep_chain(ck, mod, fn, fi, K, counts, labels, nsub, G, okd, redefs, node):
     text of B (None if not established)."""
     scope = {counts, labels, nsub} | ({G} if G else set())
     L = labels
-    v = classify(K, ['np.where(%s == _B)[0]' % L, 'np.where(_B == %s)[0]' % L, 'np.nonzero(%s == _B)[0]' % L,
+    # np.where(mask)[0] is ascending and duplicate-free: np.sort / np.unique of it is the same vector
+    while isinstance(K, ast.Call) and call_name(K) in ('np.sort', 'np.unique') and len(K.args) == 1 and not K.keywords and \
+            isinstance(K.args[0], ast.Subscript) and const_value(K.args[0].slice) == 0 and isinstance(K.args[0].value, ast.Call) and \
+            call_name(K.args[0].value) in ('np.where', 'np.nonzero') and len(K.args[0].value.args) == 1:
+        K = K.args[0]
+    v = _cls(K, ['np.where(%s == _B)[0]' % L, 'np.where(_B == %s)[0]' % L, 'np.nonzero(%s == _B)[0]' % L,
                      'np.nonzero(_B == %s)[0]' % L, 'np.arange(len(%s))[%s == _B]' % (L, L),
                      'np.arange(%s.shape[0])[%s == _B]' % (L, L)], scope=scope)
     ck.decide(v, 'C11.D3.keep', mod, K, F, 'keep set: %s' % _short(K, 120),
@@ -694,7 +917,8 @@ def keep_chain(ck, mod, fn, fi, K, counts, labels, nsub, G, okd, redefs, node):
     B = v[1]['_B']
     bx = _cx(B)
     Bs = _strip_calls(B, ('int',))
-    v = classify(Bs, ['_W.argmax()', '_W.argmax(axis=0)'], scope=scope)
+    # (np.argmax and list.index(max(..)) both return the FIRST maximum)
+    v = _cls(Bs, ['_W.argmax()', '_W.argmax(axis=0)', '_W.index(max(_W))'], scope=scope)
     ck.decide(v, 'C11.D2.heaviest', mod, Bs, F, 'selected component: %s' % _short(Bs, 120),
               'heaviest component selected by argmax',
               'the kept component must be np.argmax(subgraph_pops) (heaviest, not largest/first)')
@@ -708,14 +932,32 @@ def keep_chain(ck, mod, fn, fi, K, counts, labels, nsub, G, okd, redefs, node):
     # np.bincount(labels, weights=P)[i] = sum of P over labels == i (labels are 0..n_components-1)
     wforms += ['np.bincount(%s, weights=_P)' % L, 'np.bincount(%s, _P)' % L, 'np.bincount(%s, weights=_P, minlength=%s)' % (L, nsub),
                'np.bincount(%s, _P, minlength=%s)' % (L, nsub), 'np.bincount(%s, _P, %s)' % (L, nsub)]
-    v = classify(W, wforms, scope=scope)
+    v = _cls(W, wforms, scope=scope)
+    if True:
+        # weights taken from the 2-D counts directly: decided by WHICH entries each component sums
+        w2 = _block_weights(W, counts, L, nsub, G)
+        if w2 is not None:
+            kind, base, what = w2
+            if kind == 'rows' and base == counts:
+                ck.ok('C11.D2.weights', mod, W, 'component weights: %s' % _short(W, 120),
+                      'component weight = sum of all entries in the rows of its states (= sum of their row sums), '
+                      'one entry per component')
+                ck.check(okd, 'C11.D2.weights', mod, redefs[0] if redefs else fn, F,
+                         'definitions of %s: %s' % (counts, '; '.join(u(s) for s in redefs) or 'parameter'),
+                         'weights and extraction see the caller\'s counts (only densified)',
+                         '%s is redefined by something other than its densification before the weights are taken' % counts)
+            else:
+                ck.bad('C11.D2.weights', mod, W, F, 'component weights: %s' % _short(W, 120),
+                       'per-component weight must be the sum of the ROW sums of the original counts over the states of the '
+                       'component: this sums %s of %s' % (what, 'the original counts' if base == counts else 'the thresholded graph ' + base))
+            return bx
     ck.decide(v, 'C11.D2.weights', mod, W, F, 'component weights: %s' % _short(W, 120),
               'component weight = sum of member weights, one entry per component',
               'per-component weight must sum pops over labels == i for i in range(n_subgraphs)')
     if v[0] != 'match':
         return bx
     P = v[1]['_P']
-    v = classify(P, ['%s.sum(axis=1)' % counts, '%s.sum(1)' % counts, '%s.sum(axis=-1)' % counts, '%s.sum(-1)' % counts], scope=scope)
+    v = _cls(P, ['%s.sum(axis=1)' % counts, '%s.sum(1)' % counts, '%s.sum(axis=-1)' % counts, '%s.sum(-1)' % counts], scope=scope)
     ck.decide(v, 'C11.D2.weights', mod, P, F, 'state weights: %s' % _short(P, 120),
               'state weight = row sum of the ORIGINAL counts',
               'component weight must come from %s.sum(axis=1) of the original counts: the thresholded copy '
@@ -725,6 +967,65 @@ def keep_chain(ck, mod, fn, fi, K, counts, labels, nsub, G, okd, redefs, node):
              'weights and extraction see the caller\'s counts (only densified)',
              '%s is redefined by something other than its densification before the weights are taken' % counts)
     return bx
+
+
+def _block_weights(W, counts, L, nsub, G):
+    """`[X.sum() for I in range(n)]` with X a selection of entries of the 2-D
+    counts (or of the thresholded graph) by membership in component I:
+    (kind, base, description) with kind 'rows' (all entries of the rows of
+    the component - the sum of its row sums), 'cols', 'block' (rows and
+    columns restricted to the component: counts leaving it are ignored),
+    'all'; None if W does not have that shape."""
+    iters = ['range(%s)' % nsub, 'range(%s.max() + 1)' % L, 'np.arange(%s)' % nsub, 'np.unique(%s)' % L]
+    b = None
+    for it in iters:
+        b = match('[_X.sum() for _I in %s]' % it, W)
+        if b is not None:
+            break
+    if b is None or not isinstance(b['_I'], ast.Name):
+        return None
+    I = b['_I'].id
+    sels = CS(*[t % dict(L=L, I=I) for t in ('%(L)s == %(I)s', '%(I)s == %(L)s', 'np.where(%(L)s == %(I)s)[0]', 'np.where(%(I)s == %(L)s)[0]',
+                                             'np.nonzero(%(L)s == %(I)s)[0]')])
+    tup1 = CS(*[t % dict(L=L, I=I) for t in ('np.where(%(L)s == %(I)s)', 'np.nonzero(%(L)s == %(I)s)')])
+
+    def is_sel(e):
+        return _cx(e) in sels
+
+    def axes(e):
+        """(base name, rows restricted, columns restricted) of a selection expression."""
+        if isinstance(e, ast.Name):
+            return e.id, False, False
+        if not isinstance(e, ast.Subscript):
+            return None
+        inner = axes(e.value)
+        if inner is None:
+            return None
+        base, r, c = inner
+        sl = e.slice
+        if _is_ix(sl) and len(sl.args) == 2 and all(is_sel(a) for a in sl.args):
+            return base, True, True
+        if isinstance(sl, ast.Tuple) and len(sl.elts) == 2:
+            x, y = sl.elts
+            if is_sel(x) and _is_full_slice(y):
+                return base, True, c
+            if _is_full_slice(x) and is_sel(y):
+                return base, r, True
+            if _is_full_slice(x) and _is_full_slice(y):
+                return base, r, c
+            return None
+        if is_sel(sl) or _cx(sl) in tup1:
+            return base, True, c        # X[sel] selects whole rows
+        return None
+    a = axes(b['_X'])
+    if a is None or a[0] not in (counts, G):
+        return None
+    base, r, c = a
+    kind = {(True, False): 'rows', (False, True): 'cols', (True, True): 'block', (False, False): 'all'}[(r, c)]
+    what = {'rows': 'the rows of the component', 'cols': 'the COLUMNS of the component (arrivals, not departures)',
+            'block': 'only the counts between states of the component (counts leaving it are ignored)',
+            'all': 'the whole matrix for every component'}[kind]
+    return kind, base, what
 
 
 def container_rule(ck, mod, fn, fi, counts, M, rets):
@@ -799,14 +1100,20 @@ def submatrix_rule(ck, mod, fn, fi, M, mdef, counts, kx, at, af, scope):
                  '%s[:, _B][_A]' % counts]
 
     def extraction(e, node, what):
-        v = classify(e, ext_forms, scope=scope)
+        v = _cls(e, ext_forms, scope=scope)
         if v[0] == 'match' and any(isinstance(v[1][k], (ast.Tuple, ast.Slice)) for k in ('_A', '_B')):
             ck.missing(rule, 'index expressions of the extraction %s' % _short(e, 100))
         elif v[0] == 'match':
-            a, b = _cx(v[1]['_A']), _cx(v[1]['_B'])
-            ck.check(a == kx and b == kx, rule, mod, node, F, what,
-                     'same index vector selects rows and columns of the original counts',
-                     bad + ': rows are selected by %s, columns by %s' % (_short(a, 60), _short(b, 60)))
+            conv = ('list', 'tuple', 'np.asarray', 'np.array', 'np.asanyarray')
+            a, b = _cx(_strip_calls(v[1]['_A'], conv)), _cx(_strip_calls(v[1]['_B'], conv))
+            if a == kx and b == kx:
+                ck.ok(rule, mod, node, what, 'same index vector selects rows and columns of the original counts')
+            elif a != b and (a == kx or b == kx):
+                # one axis uses the keep set, the other a different vector
+                ck.bad(rule, mod, node, F, what, bad + ': rows are selected by %s, columns by %s' % (_short(a, 60), _short(b, 60)))
+            else:
+                ck.missing(rule, 'index vectors of the extraction are not the keep set %s: rows %s, columns %s' % (
+                    _short(kx, 60), _short(a, 60), _short(b, 60)))
         else:
             ck.decide(v, rule, mod, node, F, what, '', bad)
     val = _xb(fi, mdef.value, af)
@@ -821,7 +1128,7 @@ def submatrix_rule(ck, mod, fn, fi, M, mdef, counts, kx, at, af, scope):
     for n in n_forms:
         zf += ['np.zeros((%s, %s), dtype=__)' % (n, n), 'np.zeros((%s, %s))' % (n, n), 'np.zeros(shape=(%s, %s), dtype=__)' % (n, n),
                'np.zeros(shape=(%s, %s))' % (n, n), 'np.zeros([%s, %s], dtype=__)' % (n, n)]
-    v = classify(val, zf, scope=scope)
+    v = _cls(val, zf, scope=scope)
     ck.decide(v, rule, mod, mdef, F, u(mdef), 'result has one row and one column per kept state',
               'the renumbered matrix must be allocated as zeros of shape (n_kept, n_kept)')
     st = [(s, t) for s, t in subscript_stores(fn, M) if not dom(af, s) and isinstance(s, ast.Assign)]
@@ -839,7 +1146,7 @@ def submatrix_rule(ck, mod, fn, fi, M, mdef, counts, kx, at, af, scope):
     ar = []
     for n in n_forms + ['len(%s)' % M, '%s.shape[0]' % M]:
         ar += ['np.arange(%s)' % n, 'range(%s)' % n, 'np.arange(0, %s)' % n]
-    v = classify(sl, ['np.ix_(%s, %s)' % (a, a) for a in ar], scope=scope)
+    v = _cls(sl, ['np.ix_(%s, %s)' % (a, a) for a in ar], scope=scope)
     ck.decide(v, rule, mod, s, F, 'target %s' % u(t), 'the block is written to positions 0..n_kept-1 on both axes',
               'the extracted block must be written to np.ix_(arange(n_kept), arange(n_kept))')
 
@@ -847,97 +1154,142 @@ def submatrix_rule(ck, mod, fn, fi, M, mdef, counts, kx, at, af, scope):
 def inplace_rule(ck, mod, fn, fi, M, mdef, counts, labels, bx, kx, at, af, scope):
     rule = 'C11.D3.inplace'
     dom = fi.cfg.dominates
-    v = classify(_xb(fi, mdef.value, at), ['np.array(%s, copy=True)' % counts, '%s.copy()' % counts], scope={counts})
+    v = _cls(_xb(fi, mdef.value, at), ['np.array(%s, copy=True)' % counts, '%s.copy()' % counts], scope={counts})
     ck.decide(v, rule, mod, mdef, F, u(mdef), 'the zeroing happens in a copy', 'the non-renumbering variant must work on a copy of the counts')
     zs = [(s, t) for s, t in subscript_stores(fn, M) if not dom(at, s) and isinstance(s, ast.Assign)]
     if not zs:
         ck.missing(rule, 'stores into %s on the in-place path' % M)
         return
-    rows, cols, other = [], [], []
-    for s, t in zs:
-        if const_value(s.value) != 0 or isinstance(s.value, ast.Constant) and s.value.value is False:
-            other.append((s, None))
-            continue
-        sl = t.slice
-        if isinstance(sl, ast.Tuple) and len(sl.elts) == 2 and _is_full_slice(sl.elts[1]) and not _is_full_slice(sl.elts[0]):
-            rows.append((s, sl.elts[0]))
-        elif isinstance(sl, ast.Tuple) and len(sl.elts) == 2 and _is_full_slice(sl.elts[0]) and not _is_full_slice(sl.elts[1]):
-            cols.append((s, sl.elts[1]))
-        elif not isinstance(sl, (ast.Tuple, ast.Slice)) and not _is_ix(_xb(fi, sl, at)):
-            rows.append((s, sl))        # M[T] = 0 zeroes whole rows
-        else:
-            other.append((s, sl))
-    what = '; '.join(u(s) for s, _ in zs)
-    if not rows and not cols and not [o for o in other if o[1] is not None]:
-        ck.missing(rule, 'zeroing stores into %s on the in-place path not recognised: %s' % (M, _short(what)))
-        return
-    ck.check(bool(rows) and bool(cols), rule, mod, zs[0][0], F, what,
-             'rows AND columns of every removed state are zeroed',
-             'the in-place variant must zero trimmed_counts[trim_states, :] and trimmed_counts[:, trim_states]: '
-             'zeroing only the removed x removed block leaves one-way counts between kept and removed states')
-    if other and rows and cols:
-        ck.missing(rule, 'additional store into %s on the in-place path: %s' % (M, _short(u(other[0][0]))))
     L = labels
     tforms = []
     for cmp_ in ('%s != _B' % L, '_B != %s' % L, '~(%s == _B)' % L, 'np.logical_not(%s == _B)' % L):
         tforms += ['np.where(%s)' % cmp_, 'np.where(%s)[0]' % cmp_, 'np.nonzero(%s)' % cmp_, 'np.nonzero(%s)[0]' % cmp_, cmp_]
     tforms += ['np.setdiff1d(np.arange(len(%s)), %s)' % (L, kx), 'np.setdiff1d(np.arange(%s.shape[0]), %s)' % (L, kx)]
-    for s, e in rows + cols:
+
+    def removed(e):
+        """Verdict on an index expression that should denote the removed states."""
         T = _xb(fi, e, at)
-        v = classify(T, tforms, scope=scope)
-        if v[0] == 'match' and '_B' in v[1] and bx is not None and _cx(v[1]['_B']) != bx:
-            v = ('near', 1, 'np.where(%s != <kept component>)' % L)
+        v = _cls(T, tforms, scope=scope)
+        if v[0] == 'match' and '_B' in v[1] and bx is not None:
+            # the component compared with must be the kept one: a small edit of its expression (argmin for
+            # argmax, another weight vector) is a different component, a re-spelling cannot be compared
+            vb = _cls(_strip_calls(v[1]['_B'], ('int',)), [_cx(_strip_calls(ast.parse(bx, mode='eval').body, ('int',)))], scope=scope)
+            if vb[0] == 'near':
+                v = ('near', 1, 'np.where(%s != <kept component>)' % L)
+            elif vb[0] == 'far':
+                v = ('far', 0, None)
         elif v[0] == 'match' and '_B' in v[1] and bx is None:
             v = ('far', 0, None)
+        return v, T
+    # every store into the copy on this path: zeroing of whole rows / whole columns / a block; anything else is unknown
+    rows, cols, blocks, unknown = [], [], [], []
+    for s, t in zs:
+        if type(const_value(s.value)) not in (int, float) or const_value(s.value) != 0:
+            unknown.append(s)
+            continue
+        sl = t.slice
+        xs = _xb(fi, sl, at)
+        if isinstance(sl, ast.Tuple) and len(sl.elts) == 2 and _is_full_slice(sl.elts[1]) and not _is_full_slice(sl.elts[0]):
+            rows.append((s, sl.elts[0]))
+        elif isinstance(sl, ast.Tuple) and len(sl.elts) == 2 and _is_full_slice(sl.elts[0]) and not _is_full_slice(sl.elts[1]):
+            cols.append((s, sl.elts[1]))
+        elif _is_ix(xs) and len(xs.args) == 2 and not xs.keywords:
+            blocks.append((s, xs.args[0], xs.args[1]))
+        elif not isinstance(sl, (ast.Tuple, ast.Slice)):
+            rows.append((s, sl))        # M[T] = 0 with a 1-D index zeroes whole rows
+        else:
+            unknown.append(s)
+    # anything else that may write the copy on this path: other in-place mutations, views / aliases taken
+    # of it, calls that receive it
+    seen = {id(s) for s, _ in zs}
+    hidden = [ms for ms in fi._mutated_in_place(M) if id(ms) not in seen and not dom(at, ms) and fi.cfg.reachable(mdef, ms)]
+    for x in walk_local(fn):
+        if isinstance(x, ast.stmt) and dom(af, x) and x is not mdef and id(x) not in seen and fi.cfg.reachable(mdef, x):
+            if isinstance(x, (ast.Assign, ast.AugAssign, ast.AnnAssign, ast.Expr)) and x.value is not None:
+                par = fi.mod.parent
+                for m in ast.walk(x.value):
+                    if not (isinstance(m, ast.Name) and m.id == M):
+                        continue
+                    pm = par.get(m)
+                    # (reading the size - len(M), M.shape - cannot write the copy)
+                    if (isinstance(pm, ast.Call) and call_name(pm) == 'len') or (isinstance(pm, ast.Attribute) and pm.attr in ('shape', 'size', 'dtype', 'ndim')):
+                        continue
+                    hidden.append(x)
+                    break
+    what = '; '.join(u(s) for s, _ in zs)
+    verdicts = []
+    for s, e in rows + cols:
+        v, T = removed(e)
+        verdicts.append(v[0])
         ck.decide(v, rule, mod, s, F, '%s  with index %s' % (u(s), _short(T, 100)),
                   'removed states are the complement of the kept component',
                   'the zeroed states must be np.where(labels != best), the complement of the kept component')
+    for s, ea, eb in blocks:
+        (va, _), (vb, _) = removed(ea), removed(eb)
+        if va[0] != 'match' or vb[0] != 'match':
+            unknown.append(s)
+    if unknown or hidden or 'far' in verdicts:
+        ck.missing(rule, 'some store into %s on the in-place path is not a recognised zeroing of whole rows / columns of the removed states: %s' % (
+            M, _short(u((unknown + hidden)[0]) if unknown or hidden else what)))
+        return
+    ck.check(bool(rows) and bool(cols), rule, mod, zs[0][0], F, what,
+             'rows AND columns of every removed state are zeroed',
+             'the in-place variant must zero trimmed_counts[trim_states, :] and trimmed_counts[:, trim_states]: '
+             'zeroing only the removed x removed block leaves one-way counts between kept and removed states')
 
 
 def unpack_rules(ck):
-    """Call sites unpack (mapping, counts) in that order."""
+    """Call sites unpack (mapping, counts) in that order.
+
+    The components of the result are followed through plain copies
+    (_component_sinks); a component is the MATRIX if it replaces the argument
+    of the call or is handed to an estimator / spectrum function, the MAPPING
+    if it ends up in an attribute `mapping_`."""
     n = 0
     for rel in (MS, TS):
         m2 = ck.repo.mod(rel)
         for q, f in m2.functions.items():
-            for s in walk_local(f):
-                if not (isinstance(s, ast.Assign) and isinstance(s.value, ast.Call) and len(s.targets) == 1 and
-                        (call_name(s.value) or '').split('.')[-1] == F):
+            for call in calls_in(f):
+                if (call_name(call) or '').split('.')[-1] != F:
                     continue
                 fi = finfo(m2, f)
-                if isinstance(s.targets[0], ast.Tuple) and len(s.targets[0].elts) == 2:
-                    a, b = s.targets[0].elts
-                elif isinstance(s.targets[0], ast.Name):
-                    # `r = trim_disconnected(..)`; `x = r[0]`, `y = r[1]`: the names the components are given
-                    R = s.targets[0].id
-                    comp = {}
-                    for x in walk_local(f):
-                        if isinstance(x, ast.Assign) and len(x.targets) == 1 and isinstance(x.value, ast.Subscript) and \
-                                isinstance(x.value.value, ast.Name) and x.value.value.id == R and \
-                                fi.defs_of_use(x.value.value) == {s} and type(const_value(x.value.slice)) is int and const_value(x.value.slice) in (0, 1):
-                            comp.setdefault(int(const_value(x.value.slice)), []).append(x.targets[0])
-                    if sorted(comp) != [0, 1] or any(len(v) != 1 for v in comp.values()):
-                        continue
-                    a, b = comp[0][0], comp[1][0]
-                else:
+                s = fi.stmt(call)
+                if not (isinstance(s, ast.Assign) and len(s.targets) == 1):
+                    continue
+                if not (s.value is call or (isinstance(s.value, ast.Subscript) and s.value.value is call)):
+                    continue
+                sinks = _component_sinks(fi, f, s, call)
+                alias = {0: [], 1: []}          # texts of the places each component is stored in
+                for t, x, idxs, excl in sinks:
+                    for k in idxs:
+                        if k in alias:
+                            alias[k].append((t, x))
+                if not alias[0] and not alias[1]:
                     continue
                 n += 1
-                arg = s.value.args[0] if s.value.args else kwarg(s.value, 'counts')
+                arg = call.args[0] if call.args else kwarg(call, 'counts')
                 an = u(arg) if arg is not None else None
-                # role of each target: the counts replace the argument / go to the builder; the mapping is stored as mapping_
-                def used_as_matrix(t):
-                    if not isinstance(t, ast.Name):
-                        return False
+
+                def used_as_matrix(k):
+                    names = {t.id for t, _ in alias[k] if isinstance(t, ast.Name)}
                     for x in walk_local(f):
-                        if isinstance(x, ast.Call) and x is not s.value and x.args and isinstance(x.args[0], ast.Name) \
-                                and x.args[0].id == t.id and any(o[0] is s for o in _origins(fi, fi.stmt(x), t.id)) \
+                        if isinstance(x, ast.Call) and x is not call and x.args and isinstance(x.args[0], ast.Name) \
+                                and x.args[0].id in names and any(o[0] is s for o in _origins(fi, fi.stmt(x), x.args[0].id)) \
                                 and (call_name(x) or '').split('.')[-1] in ('method', 'eigenspectrum', 'eq_probs'):
                             return True
                     return False
-                a_map = u(a).endswith('mapping_') or u(a).lstrip('_') == 'mapping'
-                if u(b) == an or used_as_matrix(b):
+
+                def replaces_argument(k):
+                    return an is not None and any(u(t) == an for t, _ in alias[k])
+
+                def stored_as_mapping(k):
+                    return any(u(t).endswith('mapping_') for t, _ in alias[k])
+                a_txt = ', '.join(u(t) for t, x in alias[0] if x is s) or ', '.join(u(t) for t, _ in alias[0]) or '-'
+                b_txt = ', '.join(u(t) for t, x in alias[1] if x is s) or ', '.join(u(t) for t, _ in alias[1]) or '-'
+                a_map = stored_as_mapping(0) or any(u(t).lstrip('_') == 'mapping' for t, _ in alias[0])
+                if replaces_argument(1) or used_as_matrix(1):
                     ok = True
-                elif u(a) == an or used_as_matrix(a) or u(b).endswith('mapping_'):
+                elif replaces_argument(0) or used_as_matrix(0) or stored_as_mapping(1):
                     ok = False
                 elif a_map:
                     ok = True
@@ -945,7 +1297,7 @@ def unpack_rules(ck):
                     ck.missing('C11.D4.unpack', 'roles of the unpacked names in %s' % _short(u(s)))
                     continue
                 ck.check(ok, 'C11.D4.unpack', m2, s, q, u(s), '(mapping, counts) unpacked in order',
-                         'trim_disconnected returns (mapping, counts); unpacked as (%s, %s)' % (u(a), u(b)))
+                         'trim_disconnected returns (mapping, counts); unpacked as (%s, %s)' % (a_txt, b_txt))
     ck.floor('C11.D4.unpack', n, 2, 'unpackings of trim_disconnected')
 
 
@@ -974,7 +1326,23 @@ def fit_rules(ck):
         ck.missing(rule, '`... = trim_disconnected(...)` in MSM.fit: %s' % _short(t))
         return
     arg = call.args[0] if call.args else kwarg(call, 'counts')
-    extra = [k.arg for k in call.keywords if k.arg != 'counts'] + [1] * max(0, len(call.args) - 1)
+    # further arguments: harmless iff they spell the defaults of the signature
+    extra, unknown_extra = [], []
+    try:
+        tfn = ck.repo.mod(TM).func(F)
+        tps = params(tfn)
+        dflt = dict(zip(tps[len(tps) - len(tfn.args.defaults):], tfn.args.defaults))
+    except Exception:
+        tps, dflt = [], {}
+    given = [(tps[i] if i < len(tps) else '#%d' % i, a) for i, a in enumerate(call.args)][1:] + \
+        [(k.arg, k.value) for k in call.keywords if k.arg != 'counts']
+    for pn, pv in given:
+        pv = fi.expand(pv) if pn is not None else pv
+        d = dflt.get(pn)
+        if pn is None or isinstance(pv, ast.Starred) or not isinstance(pv, ast.Constant) or not isinstance(d, ast.Constant):
+            unknown_extra.append(pn)
+        elif not (type(pv.value) is type(d.value) and pv.value == d.value):
+            extra.append('%s=%s' % (pn, u(pv)))
     if not isinstance(arg, ast.Name):
         ck.missing(rule, 'matrix handed to trim_disconnected is not a variable: %s' % _short(t))
         return
@@ -1035,6 +1403,8 @@ def fit_rules(ck):
     elif extra:
         flow_ok = False
         why = 'extra arguments %s change the threshold / renumbering of the trimming' % extra
+    elif unknown_extra:
+        ck.missing(rule, 'value of the further arguments %s of trim_disconnected in MSM.fit' % unknown_extra)
     elif not trim_src:
         flow_ok = False
         why = 'the mapping returned by trim_disconnected never reaches self.mapping_'
@@ -1060,11 +1430,17 @@ def fit_rules(ck):
     if atoms is None:
         ck.missing(rule, 'condition under which MSM.fit trims')
     else:
-        ck.check(atoms == [('self.trim', True)], rule, mm, t, Q, 'trimming condition: %s' % _cond_text(atoms),
-                 'the counts are trimmed iff self.trim',
-                 'MSM(trim=True).fit must ALWAYS trim with trim_disconnected (and never when trim=False): any shortcut '
-                 'condition makes mapping_/tcounts_ differ from the trimming result, e.g. states that are entered and '
-                 'left but not strongly connected')
+        what = 'trimming condition: %s' % _cond_text(atoms)
+        bad = ('MSM(trim=True).fit must ALWAYS trim with trim_disconnected (and never when trim=False): any shortcut '
+               'condition makes mapping_/tcounts_ differ from the trimming result, e.g. states that are entered and '
+               'left but not strongly connected')
+        if atoms == [('self.trim', True)]:
+            ck.ok(rule, mm, t, what, 'the counts are trimmed iff self.trim')
+        elif not atoms or ('self.trim', False) in atoms or ('self.trim', True) in atoms:
+            # unconditional / only when trim is off / self.trim AND a further condition
+            ck.bad(rule, mm, t, Q, what, bad)
+        else:
+            ck.missing(rule, 'relation of the %s to self.trim' % what)
     # ---- identity mapping otherwise
     idc = {id(o[0]): (s, o) for s, o in ident_src}
     if len(idc) != 1 or len(next(iter(idc.values()))[1][2].args) != 1 or next(iter(idc.values()))[1][2].keywords:
@@ -1078,9 +1454,9 @@ def fit_rules(ck):
     forms = []
     for r in ('range(_N)', 'np.arange(_N)'):
         forms += ['zip(%s, %s)' % (r, r), '((_I, _I) for _I in %s)' % r, '[(_I, _I) for _I in %s]' % r]
-    v = classify(e, forms, scope=same or {X})
+    v = _cls(e, forms, scope=same or {X})
     if v[0] == 'match':
-        v2 = classify(v[1]['_N'], ['_Z.shape[0]', '_Z.shape[1]'], scope=same or {X})
+        v2 = _cls(v[1]['_N'], ['_Z.shape[0]', '_Z.shape[1]'], scope=same or {X})
         if v2[0] != 'match':
             v = v2
         elif not (isinstance(v2[1]['_Z'], ast.Name) and v2[1]['_Z'].id in same):
@@ -1213,7 +1589,12 @@ def mapping_rules(ck):
         v = classify(e, ["TrimMapping(zip(_C['original'], _C['mapped']))", "cls(zip(_C['original'], _C['mapped']))",
                          "TrimMapping(list(zip(_C['original'], _C['mapped'])))", "cls(list(zip(_C['original'], _C['mapped'])))"], near=2)
         if v[0] == 'match' and not chk:
-            v = ('near', 1, "assert headers == ['original', 'mapped']")
+            # no comparison with the literal header row: a violation only if the reader does not look
+            # at the header names at all (nothing compares / tests against 'original' or 'mapped')
+            other = [n for n in ast.walk(rd) if isinstance(n, (ast.Compare, ast.Assert, ast.Raise, ast.Call)) and n is not r[0].value
+                     and not any(n is x for x in ast.walk(r[0])) and
+                     any(isinstance(k, ast.Constant) and k.value in ('original', 'mapped') for k in ast.walk(n))]
+            v = ('far', 0, None) if other else ('near', 1, "assert headers == ['original', 'mapped']")
         ck.decide(v, rule + '.read', mod, r[0], 'TrimMapping.read', u(r[0]),
                   'reader rebuilds (original, mapped) pairs from the named columns',
                   "read must check the header and build TrimMapping(zip(column['original'], column['mapped']))")
